@@ -386,6 +386,57 @@ def pfn_pump_cases(quick):
             yield o + (a + b) * 20 + "}}"
 
 
+def redirect_cases():
+    """Template sets in which calls go through redirect pages: to a real
+    template, to a missing one, to another redirect, to itself, in a cycle of
+    two and three, to a case twin - called bare, with arguments, inside a
+    parser-function branch and from another template's body."""
+    sets = {
+        "to-real": {"ra": "=>tb"},
+        "to-missing": {"ra": "=>nosuch"},
+        "to-self": {"ra": "=>ra"},
+        "cycle-2": {"ra": "=>rb", "rb": "=>ra"},
+        "cycle-3": {"ra": "=>rb", "rb": "=>rc", "rc": "=>ra"},
+        "chain-to-real": {"ra": "=>rb", "rb": "=>tb"},
+        "chain-to-missing": {"ra": "=>rb", "rb": "=>nosuch"},
+        "case-twin": {"Cap": "=>cap"},
+        "twin-cycle": {"Cap": "=>cap", "cap": "=>Cap"},
+    }
+    pages = ["{{%s}}", "{{%s|x|k=v}}", "{{#if:1|{{%s}}|n}}", "{{tw|%s}}",
+             "{{%s}}{{%s}}", "[[a|{{%s}}]]"]
+    for sname, pg in sets.items():
+        first = next(iter(pg))
+        for pt in pages:
+            yield sname, pg, pt.replace("%s", first)
+
+
+def redirect_case(sname, pg, text):
+    ctx = env.new_ctx()
+    try:
+        ctx.add_page("Template:tb", 10, "<{{{1|}}}>")
+        ctx.add_page("Template:tw", 10, "w{{ {{{1}}} }}w")
+        for name, body in pg.items():
+            ctx.add_page("Template:" + name, 10, None,
+                         redirect_to="Template:" + body[2:])
+        ctx.start_page("Test page")
+        status, val, el = guard.call(ctx.expand, BOUND_S, text)
+    finally:
+        try:
+            ctx.close_db_conn()
+        except Exception:
+            pass
+    base = {"part": "graph", "class": "redirect-pages", "set": sname}
+    if status == "timeout":
+        return ({"kind": "timeout", **base},
+                f"{sname}: expand({text!r}) still running after {BOUND_S}s")
+    if status == "exc":
+        return ({"kind": "exception", **base, **exc_bucket(val)},
+                f"{sname}: expand({text!r}): {exc_text(val)}")
+    if not isinstance(val, str):
+        return ({"kind": "not-str", **base}, repr(type(val)))
+    return None
+
+
 def small_graph_cases():
     """All call graphs on <=3 templates (adjacency incl. self loops), each
     edge realised as a plain call in the body; page calls template 0."""
@@ -629,6 +680,16 @@ def shard_graph(idx, nshards, seed, n_random, known, quick):
                 record(part, known, buckets, v[0], v[1],
                        {"part": "very-deep", "depth": d, "nest": kind}, d)
 
+    for j, (sname, pg, text) in enumerate(redirect_cases()):
+        if j % nshards == idx:
+            v = redirect_case(sname, pg, text)
+            part.case(h(("redirect", sname, text)), True,
+                      classes=["graph:redirect-pages:" + sname],
+                      sample={"page": text, "redirects": pg})
+            if v is not None:
+                record(part, known, buckets, v[0], v[1],
+                       {"part": "redirect", "set": sname, "pages": pg,
+                        "text": text}, len(text))
     nest = [(d, kind, mode) for kind in NEST_KINDS for mode in NEST_MODES
             for d in ((30, 90) if quick else (12, 30, 48, 64, 90, 100))]
     for j, (d, kind, mode) in enumerate(nest):
@@ -871,6 +932,12 @@ def replay(run, case):
         run.case(h([case["lib"], case["page"]]), True, sample={"page": text[:200]})
         if status == "viol":
             run.violation(detail[0], detail[1], case)
+    elif case["part"] == "redirect":
+        v = redirect_case(case["set"], case["pages"], case["text"])
+        run.case(h(("redirect", case["set"], case["text"])), True,
+                 sample={"page": case["text"]})
+        if v is not None:
+            run.violation(v[0], v[1], case)
     elif case["part"] == "pump":
         ctx = env.new_ctx()
         ctx.add_page("Template:tb", 10, "<{{{1|}}}>")
